@@ -22,6 +22,7 @@ INFO = {
                    "zkey_from_raw use read_zkey on ZKEY_BYTES / the caller's bytes without arkzkey and "
                    "read_arkzkey_from_bytes_uncompressed on ARKZKEY_BYTES with it; the embedded byte constants have the sizes of the "
                    "bundled resource files; the arkzkey reader copies each of the nine matrix fields to the same-named field.",
+    "r17_6": "R17-6 (shared with C07 R07-1..R07-3): the three back ends build membership proofs by one convention (stored sibling at every level, direction bits, root recomputation)",
     "r17_5": "R17-5: the tree back ends selectable by features agree on what a rejected operation leaves behind (nothing), the high-water rule, the delete guard, the parent-recomputation shape, the subtree-root formula and (persistent back end) plain delegation to pmtree (shared with C06 R06-2..R06-5)",
     "not_decided": "identity of the keys/matrices stored in rln_final.zkey and rln_final.arkzkey and acceptance of messages across "
                    "configurations (needs running both loaders / provers); equality of roots across back ends over histories (C06)",
@@ -219,6 +220,16 @@ def run(ctx):
     c06.check_subtree_root(sub, fbd)
     for r in sub.results:
         (ctx.ok if r.status == "ok" else ctx.fail)("R17-5", r.instance, r.reason, r.loc)
+    # R17-6 (shared with C07 R07-1..R07-3): the feature-selected back ends build membership proofs by one convention (the sibling at
+    # every level is the stored node, never a shortcut value; direction bits; root recomputation), so a message produced under one
+    # configuration carries the path another configuration's tree would give
+    from . import c07
+    sub7 = _Ctx(ctx.pid, ctx.tier)
+    c07.check_full(sub7, fbd)
+    c07.check_optimal(sub7, fbd)
+    c07.check_pmtree(sub7, fbd)
+    for r in sub7.results:
+        (ctx.ok if r.status == "ok" else ctx.fail)("R17-6", r.instance, r.reason, r.loc)
     if ctx.tier == "thorough":
         for cfg in ("cli", "cli_stateless"):
             ok, meta = ctx.compiled(cfg)
